@@ -81,7 +81,7 @@ TInit == Init0 /\ l = 1 /\ phase = "sync" /\ bad = TRUE
 Create(t) == /\ status' = IF t.a.blind[1] = -1 THEN "pausing" ELSE "created"
              /\ gc' = 0 /\ hand' = "none" /\ gblind' = 0 /\ blind' = t.a.blind[1] /\ released' = FALSE /\ gate' = NoGate /\ opens' = 0
              /\ cont' = FALSE /\ chips' = ObsChips(t.st) /\ inn' = ObsInn(t.st) /\ dealt' = {} /\ survivors' = {}
-             /\ ext' = FALSE /\ closedBetween' = FALSE /\ opened2' = FALSE /\ retry' = 0 /\ win' = NoWin /\ bad' = FALSE
+             /\ ext' = FALSE /\ closedBetween' = FALSE /\ opened2' = FALSE /\ retry' = 0 /\ win' = NoWin /\ bad' = (t.st.minp # MinP)       \* (the model's table minimum is a constant)
 
 (* phase "sync": the environment part of the model is taken from the recorded line *)
 Sync == /\ phase = "sync" /\ l <= Len(Trace) /\ phase' = "act" /\ l' = l /\ bad' = bad
